@@ -97,7 +97,15 @@ DtLits == {Lit("@2015-02-04T14:34:28+09:00", DtI(6, 2015, 2, 4, 14, 34, 28, 0, T
            Lit("@2015-02-04T14:34", DtI(5, 2015, 2, 4, 14, 34, 0, 0, FALSE, 0)),
            Lit("@1980-02-29T13:30:00+05:30", DtI(6, 1980, 2, 29, 13, 30, 0, 0, TRUE, 330))}
 TimeLits == {Lit("@T10:30", TimeI(5, 10, 30, 0, 0)), Lit("@T10:30:15.500", TimeI(7, 10, 30, 15, 500)), Lit("@T23:59:59", TimeI(6, 23, 59, 59, 0))}
-AllLits == NumLits \cup StrLits \cup BoolLits \cup DateLits \cup DtLits \cup TimeLits
+(* quantity literals with calendar keyword units (th = the amount in thousandths, u = the unit as a string) *)
+QLit(txt, th, coef, e, u, ucp) == Lit(txt, [t |-> "q", val |-> Dec(FALSE, coef, e), unit |-> ucp, u |-> u, th |-> th])
+QLits == {QLit("1 year", 1000, 1, 0, "year", <<121, 101, 97, 114>>), QLit("2 months", 2000, 2, 0, "months", <<109, 111, 110, 116, 104, 115>>),
+          QLit("13 months", 13000, 13, 0, "months", <<109, 111, 110, 116, 104, 115>>), QLit("10 days", 10000, 1, 1, "days", <<100, 97, 121, 115>>),
+          QLit("4 weeks", 4000, 4, 0, "weeks", <<119, 101, 101, 107, 115>>), QLit("1.5 hours", 1500, 15, -1, "hours", <<104, 111, 117, 114, 115>>),
+          QLit("25 hours", 25000, 25, 0, "hours", <<104, 111, 117, 114, 115>>), QLit("90 minutes", 90000, 9, 1, "minutes", <<109, 105, 110, 117, 116, 101, 115>>),
+          QLit("1 day", 1000, 1, 0, "day", <<100, 97, 121>>), QLit("365 days", 365000, 365, 0, "days", <<100, 97, 121, 115>>),
+          QLit("3 'mg'", 3000, 3, 0, "mg", <<109, 103>>)}
+AllLits == QLits \cup NumLits \cup StrLits \cup BoolLits \cup DateLits \cup DtLits \cup TimeLits
 
 (******************************** rendering ********************************)
 TypeText(ns, name) == IF ns = "" THEN name ELSE ns \o "." \o name
@@ -158,6 +166,7 @@ ElemOperands == {Fld(Pat, "active"), Fld(Pat, "deceased"), Fld(Pat, "gender"), F
 UrlBirth == <<104, 116, 116, 112, 58, 47, 47, 104, 108, 55, 46, 111, 114, 103, 47, 102, 104, 105, 114, 47, 83, 116, 114, 117, 99, 116, 117, 114, 101, 68, 101, 102, 105, 110, 105, 116, 105, 111, 110, 47, 112, 97, 116, 105, 101, 110, 116, 45, 98, 105, 114, 116, 104, 84, 105, 109, 101>>
 UrlA == <<104, 116, 116, 112, 58, 47, 47, 101, 120, 97, 109, 112, 108, 101, 46, 111, 114, 103, 47, 101, 120, 116, 47, 97>>
 
+OtherSign(op) == IF op = "+" THEN "-" ELSE "+"
 NCat == 14
 (* the steps of category cat offered after expression x whose value is the collection c *)
 StepCat(x, c, cat) ==
@@ -198,6 +207,9 @@ StepCat(x, c, cat) ==
                       \cup {Bin(op, x, x) : op \in {"+", "-", "*", "div", "mod"}}
                       \cup {Call(x, g, <<>>) : g \in MathFns} \cup {Call(x, "round", <<Lit("1", I(1))>>)}, OrEmpty(c, "C08"))
                   \cup Tag({Call(x, "round", <<LitE>>)}, "C07")
+             ELSE IF AllVal(c, {"date", "dt", "time"}) /\ single
+                  THEN Tag({Bin(op, x, q) : op \in {"+", "-"}, q \in QLits}
+                           \cup {Bin(OtherSign(op), Bin(op, x, q), q) : op \in {"+", "-"}, q \in QLits}, "C09")
              ELSE IF nums THEN Tag({Call(x, "select", <<Bin(op, This, l)>>) : op \in {"+", "-", "*", "div", "mod"}, l \in NumLits}
                                    \cup {Call(x, "select", <<Call(This, g, <<>>)>>) : g \in MathFns}, "C08")
              ELSE {})
